@@ -586,7 +586,8 @@ class WebSocketApp:
             )
             reason = close_frame.data[2:]
             if isinstance(reason, bytes):
-                reason = reason.decode("utf-8")
+                # (with skip_utf8_validation the reason may not be valid UTF-8)
+                reason = reason.decode("utf-8", errors="replace")
             return [close_status_code, reason]
         else:
             # Most likely reached this because len(close_frame_data.data) < 2
